@@ -39,8 +39,8 @@ PROGS = {
     # finishes, but its on_finished hook raises afterwards (armed per launch): ends EXCEPTED after having set its outputs
     'H': {'steps': [S([['out', 'h', 1]], ['value', 6])], 'raise_in_hook': ['on_finished', 'post']},
 }
-STEPS = {'F': ['run'], 'W': ['run', 's1'], 'W2': ['run', 's1', 's2'], 'X': ['run'], 'H': ['run']}
-OUTPUTS = {'F': {'x': 1}, 'W': {'a': 1, 'b': 2}, 'W2': {'a': 1, 'b': 2, 'c': 3}, 'H': {'h': 1}}
+STEPS = {'F': ['run'], 'W': ['run', 's1'], 'W2': ['run', 's1', 's2'], 'X': ['run'], 'H': ['run'], 'U': ['run']}
+OUTPUTS = {'F': {'x': 1}, 'W': {'a': 1, 'b': 2}, 'W2': {'a': 1, 'b': 2, 'c': 3}, 'H': {'h': 1}, 'U': {'x': 1}}
 TAGS = [None, 'a', 'b']
 
 
@@ -70,6 +70,11 @@ class AnonymousCommunicator(kiwipy.LocalCommunicator):
 
 def enumerate_cases(tier, scope):
     configs = [(p, loader, via, lc) for p in ('none', 'memory', 'pickle') for loader in ('default', 'custom') for via in ('direct', 'comm') for lc in ('none', 'given')]
+    if scope == 'single':
+        for p in ('memory', 'pickle', 'none'):
+            for via in ('direct', 'comm'):
+                for op in (['create', 'U', 1, True], ['launch', 'U', 1, True, False], ['launch', 'U', 1, True, True], ['launch', 'U', 1, False, False], ['create', 'U', 1, False]):
+                    yield {'persister': p, 'loader': 'registry', 'via': via, 'load_context': 'none', 'ops': [op, ['continue', 1, None, False]]}
     singles = []
     for prog in PROGS:
         for persist in (False, True):
@@ -167,7 +172,7 @@ def execute(case):
     asyncio.set_event_loop(loop)
     w = world.reset(loop)
     prev_loader = loaders.get_object_loader()
-    custom = loaders_h.TagLoader()
+    custom = loaders_h.RegistryLoader() if case['loader'] == 'registry' else loaders_h.TagLoader()
     loaders_h.TagLoader.reset()
     hist = []
     try:
@@ -176,7 +181,7 @@ def execute(case):
             persister = persistence.InMemoryPersister()
         elif case['persister'] == 'pickle':
             persister = persistence.PicklePersister(tmpdir)
-        loader = custom if case['loader'] == 'custom' else None
+        loader = custom if case['loader'] in ('custom', 'registry') else None
         with loop.as_running():
             # what the caller puts into the load context reaches the continued processes: here a communicator of its own
             ctx_comm = AnonymousCommunicator() if case.get('load_context') == 'given' else None
@@ -187,6 +192,13 @@ def execute(case):
                 comm = communications.LoopCommunicator(ConfirmingCommunicator(), loop)
                 comm.add_task_subscriber(launcher)
         classes_by_prog = {name: make_class(prog) for name, prog in PROGS.items()}
+        # a process class that cannot be imported by name (made by a factory): only the launcher's registry loader knows it
+        from ..programs import ProgBase, _make_step
+
+        unreg = type('P_factory_made', (ProgBase,), {'PROGRAM': PROGS['F'], '__module__': 'pv.gen_classes', 'run': _make_step(0, False)})
+        classes_by_prog['U'] = unreg
+        if isinstance(custom, loaders_h.RegistryLoader):
+            custom.registry['U'] = unreg
         store = {}  # (pid, tag) -> (prog, steps done)
         instances = []  # model records: {'proc', 'prog', 'base', 'started', 'origin'}
         replies = []  # (op, future, expectation dict)
@@ -234,6 +246,21 @@ def execute(case):
                 else:
                     body = process_comms.create_launch_body(classes_by_prog[prog], init_kwargs={'pid': pid}, persist=persist, loader=ident_loader, nowait=nowait)
                 fut = send(body)
+                unpersistable = prog == 'U' and persist and persister is not None
+                if unpersistable:
+                    # asked to persist a process whose class the persister cannot name: the task fails up front, the
+                    # process is not run and nothing is stored
+                    classes.add('unpersistable-class')
+                    run_until(lambda: _fut_outcome(fut)[0] != 'pending')
+                    loop.drain()
+                    out = _fut_outcome(fut)
+                    new = adopt_new(prog, 0, False, kind, before)
+                    if out[0] != 'raise':
+                        v('unpersistable-task-honoured', f'{where}: the class cannot be named by the persister, but the reply is {out!r}')
+                    hist.append(op)
+                    if viol:
+                        break
+                    continue
                 rejected = persist and persister is None
                 if kind == 'create' or nowait or rejected:
                     run_until(lambda: _fut_outcome(fut)[0] != 'pending')
@@ -415,6 +442,8 @@ def execute(case):
                     continue  # a failing process / rejected task fails the task that runs it: that is the reply, not an escape
                 if ctx['exc_type'] in ('KeyError', 'FileNotFoundError'):
                     continue
+                if ctx['exc_type'] == 'ValueError' and 'unpersistable-class' in classes:
+                    continue  # the refusal of the unpersistable class is the reply of that task
                 v('loop-exception', f"{ctx['message'][:70]} {ctx['exc_type']}: {ctx['exc_str']}")
                 break
     finally:
